@@ -186,7 +186,7 @@ def run_tlc(ctx, name, spec, env_override=None, allow_spec_violation=False):
            "-metadir", meta, "-cleanup", "-noGenerateSpecTE", "-nowarning"]
     if spec.get("cont", True):
         cmd.append("-continue")
-    if name.startswith("mc_"):
+    if name.startswith("mc_") and spec.get("coverage", True):
         cmd += ["-coverage", "1"]        # per-action counts: an action never taken would be vacuity
     cmd += spec.get("args", [])
     cmd += ["-config", os.path.join(SPEC, spec["cfg"]), os.path.join(SPEC, spec["module"] + ".tla")]
@@ -564,8 +564,10 @@ JOBS = {
     "selfreplay_set1_q": dict(kind="selfreplay", table="set1", graph="g_set1", arg=3, prop="C07", env={"x": "repo"}),
     "selfreplay_set2_t": dict(kind="selfreplay", table="set2", graph="g_set2", arg=4, prop="C07", env={"x": "repo"}),
     "selfreplay_set1_t": dict(kind="selfreplay", table="set1", graph="g_set1", arg=4, prop="C07", env={"x": "repo"}),
-    "mc_world": dict(kind="tlc", module="MC_World", cfg="MC_World.cfg", workers=6, cont=False),
-    "mc_world_full": dict(kind="tlc", module="MC_World", cfg="MC_World_full.cfg", workers=12, cont=False, timeout=3600),
+    # (coverage instrumentation of the recursive host operators exhausts the heap: off for World)
+    "mc_world": dict(kind="tlc", module="MC_World", cfg="MC_World.cfg", workers=6, cont=False, heap="8g", coverage=False),
+    "mc_world_full": dict(kind="tlc", module="MC_World", cfg="MC_World_full.cfg", workers=12, cont=False, heap="16g",
+                          timeout=3600, coverage=False),
     "world_q": dict(kind="world", layouts=["Uk105Key", "De105Key"], num=100, env={"x": "repo"}),
     "world_t": dict(kind="world", layouts=["Us104Key", "Uk105Key", "De105Key", "Azerty", "No105Key", "FiSe105Key",
                                            "Colemak", "Dvorak104Key", "DVP104Key"], num=1500, env={"x": "repo"}, timeout=3600),
@@ -593,6 +595,8 @@ JOBS = {
     "conf_set2_default": dict(kind="tlc", module="Conf_Set2", cfg="Conf_Set2.cfg",
                               env={"GRAPH": "art:g_set2_default", "COMP": "set2_default"}),
     "proof_keyboard": dict(kind="tlapm", files=["KeyboardProofs.tla", "Keyboard.tla"]),
+    "conf_xlate": dict(kind="tlc", module="Conf_Xlate", cfg="Conf_Xlate.cfg", workers=4,
+                       env={"GRAPH1": "art:g_set1", "GRAPH2": "art:g_set2"}),
     "props_scan": dict(kind="tlc", module="Props_Scan", cfg="Props_Scan.cfg", workers=1,
                        env={"GRAPH1": "art:g_set1", "GRAPH2": "art:g_set2"}),
 }
@@ -612,7 +616,8 @@ PROPS = {
                 graphs=["g_frame"]),
     "C07": dict(quick=["mc_set1", "mc_set2", "props_scan", "selfreplay_set1_q", "selfreplay_set2_q"],
                 thorough=["mc_set1", "mc_set2", "props_scan", "selfreplay_set1_t", "selfreplay_set2_t"], graphs=["g_set1", "g_set2"]),
-    "C13": dict(quick=["props_scan", "mc_world", "world_q"], thorough=["props_scan", "mc_world_full", "world_t"],
+    "C13": dict(quick=["props_scan", "conf_xlate", "mc_world", "world_q"],
+                thorough=["props_scan", "conf_xlate", "mc_world_full", "world_t"],
                 graphs=["g_set1", "g_set2"]),
     "C19": dict(quick=["mc_set1", "mc_set2", "props_scan"], graphs=["g_set1", "g_set2"]),
     "C18": dict(quick=["mc_keyboard_set2", "proof_keyboard", "conf_kb2_mixedq", "conf_kb1_mixedq", "conf_kb2_events_wiring", "trace_kb2", "trace_kb1",
@@ -701,6 +706,13 @@ def canon_key(rec):
     if k in ("xlate-forward",):
         return "xlate-forward prefix=%s set2=%s form=%s set2-gives=%s set1-gives=%s" % (
             rec["prefix"], hexb(rec["code2"]), rec["form"], "/".join(map(str, rec["o2"])), "/".join(map(str, rec["o1"])))
+    if k == "xlate-history":
+        # same case identity as the initial-state checks when it is the same disagreement
+        if rec["o2"][0] == "ev":
+            return "xlate-forward prefix=%s set2=%s form=%s set2-gives=%s set1-gives=%s" % (
+                rec["prefix"], hexb(rec["code2"]), rec["form"], "/".join(map(str, rec["o2"])), "/".join(map(str, rec["o1"])))
+        return "xlate-converse prefix=%s set1=%s form=%s set1-gives=%s" % (
+            rec["prefix"], hexb(rec["code1"]), rec["form"], "/".join(map(str, rec["o1"])))
     if k in ("xlate-converse",):
         return "xlate-converse prefix=%s set1=%s form=%s set1-gives=%s" % (
             rec["prefix"], hexb(rec["code1"]), rec["form"], "/".join(map(str, rec["o1"])))
